@@ -163,6 +163,29 @@ def line_count(s):
     return s.count("\n")
 
 
+def rewrite_accessor(text, acc, field):
+    """R14: `acc(E)` -> `E.field` (balanced parentheses; E is an identifier possibly followed by index brackets)"""
+    out = []
+    i = 0
+    pat = re.compile(r"\b%s\(" % re.escape(acc))
+    while True:
+        m = pat.search(text, i)
+        if not m:
+            out.append(text[i:])
+            return "".join(out)
+        k = m.end()
+        d = 1
+        while d:
+            c = text[k]
+            d += (c == "(") - (c == ")")
+            k += 1
+        inner = text[m.end():k - 1]
+        if not re.fullmatch(r"\w+(\[[^\[\]]*\])*", inner):
+            raise ExtractError("R14: argument of %s is not a place expression: %s" % (acc, inner))
+        out.append(text[i:m.start()] + inner + "." + field)
+        i = k
+
+
 # --------------------------------------------------------------------------- weaving
 # self-test switch: desugar every labelled `for` loop (R11w) even without a `continue`
 FORCE_DESUGAR = bool(os.environ.get("VERIF_FORCE_DESUGAR"))
@@ -569,6 +592,7 @@ def rewrite_item_text(src, S, log, sites, is_fn=True, outline=None, keep_for=(),
     src = rules.rewrite_format(src, log)
     src = rules.closure_param_patterns(src, log)
     src = rules.clone_from_calls(src, log)
+    src = rules.split_or_guard_arms(src, log)
     src = rules.adapter_chains(src, log)
     src = rules.split_headers(src, log)
     src = rules.loop_headers(src, log, keep_for, force_raw)
@@ -640,8 +664,23 @@ def build(repo, contracts_dir, out_dir, vacuity=False, only=None):
                 k += 1
             W.emit("".join(out) + "\n\n")
             log.append({"rule": "R-lib", "what": "PPGEvaluatorError: thiserror attributes dropped"})
+    # R14: accessors for fields the contracts mention but the tree may lack (a field introduced by a repair):
+    # `acc(E)` in contracts/spec.rs is rewritten to `E.field` when the extracted struct has the field; otherwise `acc` is
+    # emitted as a spec function returning the stated constant
+    r14 = []
+    for of in cfg.get("optional_fields", []):
+        st = [it for it in S.eitems if it.kind == "struct" and it.name == of["struct"]]
+        has = bool(st) and re.search(r"\b%s\s*:" % re.escape(of["field"]), strip_attrs(S.etoks, st[0])) is not None
+        if has:
+            r14.append(of)
+        else:
+            W.emit("spec fn %s(x: %s) -> %s { %s }\n" % (of["accessor"], of["struct"], of["type"], of["absent"]))
+        log.append({"rule": "R14", "what": "%s(x) = %s" % (of["accessor"], ("x.%s" % of["field"]) if has else
+                                                            "%s (field %s.%s absent)" % (of["absent"], of["struct"], of["field"]))})
     W.emit("\n// ===== spec vocabulary (contracts/spec.rs) =====\n")
     spec_text = open(os.path.join(contracts_dir, "spec.rs")).read()
+    for of in r14:
+        spec_text = rewrite_accessor(spec_text, of["accessor"], of["field"])
     if vacuity:
         # probe every lemma: `assert(false)` as first statement of each `proof fn` body must fail
         out_lines = []
